@@ -9,7 +9,7 @@ COQ = os.path.join(ROOT, "coq")
 WORK = os.path.join(ROOT, "work")
 HARNESS = os.path.join(ROOT, "harness")
 GUARD = "essential_base_verif"
-MAX_BATCH = 16000     # cases per engine invocation (16 shards of at most 1000)
+MAX_BATCH = 8000      # cases per engine invocation (16 shards of at most 500: limit-sized stacks and memories make some literals large)
 JOBS = int(os.environ.get("VERIF_JOBS", "16"))
 
 import gen_optable, gen_consts
